@@ -4,7 +4,8 @@
 //! Bound: `EGraph::union`: 600 (deep: 6000) pseudo-random histories of 6 insertions (terms of depth ≤ 2 over
 //! var, mul/2, f3/3, f4/4, g/1, lam, 5 slot names) and 8 unions between the inserted terms, plus 12 hand-written histories
 //! (symmetry then redundancy, a class equated with a term that contains it, redundancy under a binder);
-//! `apply_rewrites`: 9 terms × 6 rule sets × 3 rounds.  After EVERY operation: the built-in `EGraph::check`, every
+//! `apply_rewrites`: 13 terms × 12 rule sets × 3 rounds and 5 terms × 10 one-rule-per-round sequences (native substitution,
+//! let-introduction, rules under binders, after a redundancy or symmetry was established).  After EVERY operation: the built-in `EGraph::check`, every
 //! e-node listed for a class looks up to that class, no e-node is listed for two live classes, every e-node mentions all
 //! slots of its class, `find_applied_id` is idempotent on the inserted handles.
 //! The build with the crate's internal assertions is exercised by the same harness when the copy is built with
@@ -15,6 +16,8 @@ define_language! {
     pub enum HL {
         Var(Slot) = "var",
         Lam(Bind<AppliedId>) = "lam",
+        App(AppliedId, AppliedId) = "app",
+        Let(Bind<AppliedId>, AppliedId) = "let",
         Mul(AppliedId, AppliedId) = "mul",
         F3(AppliedId, AppliedId, AppliedId) = "f3",
         F4(AppliedId, AppliedId, AppliedId, AppliedId) = "f4",
@@ -114,6 +117,12 @@ fn rules() -> Vec<(&'static str, &'static str, &'static str)> {
         ("g-elim", "(g ?a)", "?a"),
         ("mul-zero", "(mul ?a zero)", "zero"),
         ("f4-swap", "(f4 ?a ?b ?c ?d)", "(f4 ?b ?a ?d ?c)"),
+        // rewriting under binders: native substitution, let-introduction, eta, a rule whose right side binds a slot
+        ("subst-beta", "(app (lam $1 ?b) ?t)", "?b[(var $1) := ?t]"),
+        ("beta-let", "(app (lam $1 ?b) ?t)", "(let $1 ?b ?t)"),
+        ("let-var-same", "(let $1 (var $1) ?e)", "?e"),
+        ("wrap", "(mul ?a ?b)", "(app (lam $5 (mul (var $5) ?b)) ?a)"),
+        ("lam-forget", "(lam $1 (mul ?a ?b))", "(lam $1 (mul ?a (var $8)))"),
     ]
 }
 
@@ -142,8 +151,11 @@ pub fn run(only: &[String]) -> Vec<String> {
     if want("apply_rewrites") {
         let terms = ["(mul (var $1) (var $2))", "(mul (mul (var $1) (var $2)) (mul (var $2) (var $1)))", "(f3 (var $1) (var $2) (var $3))",
             "(g (f3 (var $1) (var $2) (var $3)))", "(mul (f3 (var $1) (var $2) (var $3)) zero)", "(lam $1 (mul (var $1) (var $2)))",
-            "(f4 (var $1) (var $2) (var $3) (var $4))", "(mul (g (var $1)) (f4 (var $1) (var $2) (var $1) (var $2)))", "(lam $1 (f3 (var $1) (var $2) (var $1)))"];
-        let sets: Vec<Vec<usize>> = vec![vec![0, 1], vec![2, 3], vec![0, 1, 2, 3], vec![4, 5], vec![6, 0], vec![0, 1, 2, 3, 4, 5, 6]];
+            "(f4 (var $1) (var $2) (var $3) (var $4))", "(mul (g (var $1)) (f4 (var $1) (var $2) (var $1) (var $2)))", "(lam $1 (f3 (var $1) (var $2) (var $1)))",
+            "(app (lam $1 (mul (var $1) (var $2))) (var $3))", "(app (lam $1 (lam $2 (mul (var $1) (mul (var $2) (var $3))))) (g (var $2)))",
+            "(lam $3 (app (lam $1 (mul (var $3) (mul (var $1) (var $2)))) (var $3)))", "(app (lam $1 (mul (var $2) (var $2))) (f3 (var $1) (var $2) (var $3)))"];
+        let sets: Vec<Vec<usize>> = vec![vec![0, 1], vec![2, 3], vec![0, 1, 2, 3], vec![4, 5], vec![6, 0], vec![0, 1, 2, 3, 4, 5, 6],
+            vec![1, 7], vec![7, 0], vec![8, 9, 1], vec![10, 7, 1], vec![11, 7], vec![0, 1, 7, 8, 9, 10, 11]];
         let rs = rules();
         let mut n = 0;
         for t in terms { for set in &sets {
@@ -154,6 +166,26 @@ pub fn run(only: &[String]) -> Vec<String> {
                 verif_case(format!("term {} rules {:?} round {}", t, set.iter().map(|i| rs[*i].0).collect::<Vec<_>>(), round));
                 apply_rewrites(&mut eg, &rws);
                 if let Err(e) = consistent(&eg, &h) { if n < 3 { n += 1; fails.push(format!("FAIL apply_rewrites C08:history.consistent term {} rules {:?} round {}: {}", t, set, round, e)); } break; }
+                if eg.total_number_of_nodes() > 300 { break; }
+            }
+        }}
+    }
+    if want("apply_rewrites") {
+        // one rule per round: a redundancy or a symmetry is established BEFORE the next rule matches
+        let seqs: Vec<Vec<usize>> = vec![vec![1, 7], vec![1, 8, 9], vec![0, 1, 7], vec![11, 7], vec![11, 8], vec![10, 1, 7], vec![1, 10, 7], vec![0, 7, 1], vec![7, 1, 0], vec![1, 0, 10, 7]];
+        let terms = ["(app (lam $1 (mul (var $1) (var $2))) (var $3))", "(app (lam $1 (lam $2 (mul (var $1) (mul (var $2) (var $3))))) (g (var $2)))",
+            "(lam $3 (app (lam $1 (mul (var $3) (mul (var $1) (var $2)))) (var $3)))", "(app (lam $1 (mul (var $2) (var $2))) (f3 (var $1) (var $2) (var $3)))",
+            "(app (lam $1 (mul (mul (var $1) (var $2)) (mul (var $2) (var $1)))) (mul (var $2) (var $4)))"];
+        let rs = rules();
+        let mut n = 0;
+        for t in terms { for seq in &seqs {
+            let mut eg = EG::default();
+            let h = vec![eg.add_expr(RecExpr::<HL>::parse(t).unwrap())];
+            for (round, r) in seq.iter().enumerate() {
+                verif_case(format!("term {} one rule per round {:?}, round {} ({})", t, seq.iter().map(|i| rs[*i].0).collect::<Vec<_>>(), round, rs[*r].0));
+                let rws = vec![Rewrite::<HL, ()>::new(rs[*r].0, rs[*r].1, rs[*r].2)];
+                apply_rewrites(&mut eg, &rws);
+                if let Err(e) = consistent(&eg, &h) { if n < 3 { n += 1; fails.push(format!("FAIL apply_rewrites C08:history.consistent term {} one rule per round {:?} round {}: {}", t, seq, round, e)); } break; }
                 if eg.total_number_of_nodes() > 300 { break; }
             }
         }}
